@@ -145,7 +145,7 @@ func init() {
 
 var replayAliases = map[string]string{
 	"C02/indexed": "C02/programs", "C04/indexed": "C04/programs",
-	"C07/wellformed": "C07/arbitrary", "C07/library-outputs": "C07/arbitrary",
+	"C07/wellformed": "C07/arbitrary", "C07/library-outputs": "C07/arbitrary", "C07/nested-splits": "C07/arbitrary",
 	"C10/escape-model-ext": "C10/escape-model", "C11/formats-2byte": "C11/formats",
 	"C01/formats-2byte": "C01/programs", "C01/indexed": "C01/programs",
 	"C03/formats-2byte": "C03/programs", "C03/indexed": "C03/programs",
